@@ -19,6 +19,9 @@ func (g *gen) val() string {
 	if g.r.Chance(1, 12) {
 		return "" // empty / nil value
 	}
+	if g.r.Chance(1, 15) {
+		return "@ver" // the value names the version it replaces (put, cas)
+	}
 	return fmt.Sprintf("x%d", g.nval)
 }
 
@@ -57,6 +60,9 @@ func Generate(r *sim.Rng, prop, tier string, idx int) *sim.Case {
 		// commands take a while to reach the server (C07's promptness bound is about a fast network)
 		c.Knobs["net_latency_ns"] = int64(sim.Pick(r, 200*time.Microsecond, 3*time.Millisecond, 40*time.Millisecond))
 	}
+	if backendKind == 1 && r.Chance(1, 5) {
+		c.Knobs["redis_clock_skew_ns"] = int64(sim.Pick(r, -time.Hour, -3*time.Second, 3*time.Second, time.Hour))
+	}
 	g := &gen{r: r}
 	switch prop {
 	case "C02":
@@ -77,7 +83,7 @@ func (g *gen) expiryFar() int64 {
 		return int64(time.Hour)
 	case 3:
 		// "practically never": instants beyond what fits nanoseconds-since-1970 in an int64
-		return sim.Pick(g.r, FarExpiry2500, FarExpiry9999, int64(200*365*24*time.Hour))
+		return sim.Pick(g.r, FarExpiry2500, FarExpiry9999, FarExpiryBeyond, int64(200*365*24*time.Hour))
 	}
 	return 0
 }
